@@ -102,7 +102,7 @@ def judge_trace(cfg, status, stack, tr):
     if tr.max_loop_iter > cfg.call_limit:
         bad.append(('loop ran more iterations than the limit', f'{tr.max_loop_iter} > {cfg.call_limit}'))
     for kind, detail in tr.events:
-        if kind in ('item-dropped', 'negative-read', 'pointer-moved-backwards-in-read', 'pointer-past-end', 'negative-move',
+        if kind in ('item-dropped', 'negative-read', 'pointer-moved-backwards-in-read', 'pointer-moved-backwards', 'pointer-past-end', 'negative-move',
                     'deque-extend-bypasses-put', 'deque-append-outside-put', 'deque-appendleft', 'deque-insert', 'deque-extendleft',
                     'deque-iadd-bypasses-put'):
             bad.append((kind, detail))
